@@ -76,3 +76,34 @@ Proof.
   - apply comp_grid_m2l_om; assumption.
 Qed.
 End CompGrid.
+
+(* the marginalisation of the composite class evaluates J at the SAME base point the grids are normalised by: the anisotropy base values and
+   the MEAN of the inner-slope axis (and of the mass-to-light axis in the population-level mode), with errors switched ON; J-model = mean over
+   the draws, the covariance is numpy.cov of sqrt(J) (bins x draws) *)
+Section CompMarginal.
+Variables (a0 a1 b0 b1 g0 g1 g2 l0 l1 : R) (cv ka : val).
+Definition log2 (tag : string) (args : list val) (w : world) : world := World (rng w) (cur w) ((tag, args) :: olog w) (decs w) (pc w).
+Definition mtabc : list (string * callee) :=
+  [("j_kin_draw_composite", COracle (fun args kws w => Ok ((if Nat.eqb (length (olog w)) 0 then vec [a0; a1] else vec [b0; b1]), log2 "j_kin_draw_composite" (tl args ++ map snd kws)%list w)));
+   ("j_kin_draw_composite_m2l", COracle (fun args kws w => Ok ((if Nat.eqb (length (olog w)) 0 then vec [a0; a1] else vec [b0; b1]), log2 "j_kin_draw_composite_m2l" (tl args ++ map snd kws)%list w)));
+   ("@kwargs_anisotropy_base", COracle (fun _ _ w => Ok (ka, w)))].
+Definition Gmc : fenv := FEnv (fun _ m => assoc m mtabc)
+  (fun n => if String.eqb n "np.cov" then Some (COracle (fun args kws w => Ok (cv, log2 "np.cov" args w))) else None).
+Definition cobj (pop : bool) := VObj "KinConstraintsComposite"
+  [("_sigma_v_measured", vec [250; 260]); ("_is_m2l_population_level", VBool pop); ("gamma_in_array", vec [g0; g1; g2]); ("log_m2l_array", vec [l0; l1])].
+Open Scope R_scope.
+Theorem comp_marginalisation_pop rg cu : 0 <= a0 -> 0 <= a1 -> 0 <= b0 -> 0 <= b1 ->
+  yields Gmc 120 (CFun src_KinConstraintsComposite_model_marginalization) (Some (cobj true)) [VInt 2] [] rg cu
+    (VTuple [vec [(a0 + (b0 + 0)) / 2; (a1 + (b1 + 0)) / 2]; cv]) cu
+    [("np.cov", [VArr [VList [num (sqrt a0); num (sqrt b0)]; VList [num (sqrt a1); num (sqrt b1)]]]);
+     ("j_kin_draw_composite", [ka; num ((g0 + (g1 + (g2 + 0))) / 3); num ((l0 + (l1 + 0)) / 2); VBool false]);
+     ("j_kin_draw_composite", [ka; num ((g0 + (g1 + (g2 + 0))) / 3); num ((l0 + (l1 + 0)) / 2); VBool false])].
+Proof. intros. unfold cobj. yields_with real_fact ltac:(val_eq). Qed.
+Theorem comp_marginalisation_m2l rg cu : 0 <= a0 -> 0 <= a1 -> 0 <= b0 -> 0 <= b1 ->
+  yields Gmc 120 (CFun src_KinConstraintsComposite_model_marginalization) (Some (cobj false)) [VInt 2] [] rg cu
+    (VTuple [vec [(a0 + (b0 + 0)) / 2; (a1 + (b1 + 0)) / 2]; cv]) cu
+    [("np.cov", [VArr [VList [num (sqrt a0); num (sqrt b0)]; VList [num (sqrt a1); num (sqrt b1)]]]);
+     ("j_kin_draw_composite_m2l", [ka; num ((g0 + (g1 + (g2 + 0))) / 3); VBool false]);
+     ("j_kin_draw_composite_m2l", [ka; num ((g0 + (g1 + (g2 + 0))) / 3); VBool false])].
+Proof. intros. unfold cobj. yields_with real_fact ltac:(val_eq). Qed.
+End CompMarginal.
